@@ -690,11 +690,32 @@ theorem experimentalFor_wf (V : List ValueInfoP) (hV : V.all wfVI = true) (d n :
     · cases hx
 
 /-- IR < 10, one function: applying the experimental entries of the main graph and serializing -/
-theorem fn_experimental (ver : Int) (V : List ValueInfoP) (hV : V.all wfVI = true) (f : FunctionP)
+theorem exp_valueR (R : List String) (V : List ValueInfoP) (hV : V.all wfVI = true) (f : FunctionP) (n : String)
+    (hn : n ≠ "") :
+    expEmitR R f.domain f.name (expUpd (experimentalFor V f.domain f.name) (IRValue.blank n))
+    = (if R.contains (experimentalName f.domain f.name n) then none else expEntry V f n).toList := by
+  unfold expEmitR
+  have hb : (expUpd (experimentalFor V f.domain f.name) (IRValue.blank n)).name = n := by
+    simp [IRValue.blank]
+  rw [hb]
+  split
+  · rfl
+  · exact exp_value V hV f n hn
+
+theorem serExperimentalR_nil (f : IRFunction) : serExperimentalR [] f = serExperimental f := by
+  simp [serExperimentalR, serExperimental, expEmitR]
+
+theorem experimentalVIsR_nil (V : List ValueInfoP) (f : FunctionP) :
+    experimentalVIsR [] V f = experimentalVIs V f := by
+  simp [experimentalVIsR, experimentalVIs]
+
+/-- IR < 10, one function: applying the experimental entries of the main graph and serializing, for any list
+`R` of reserved names -/
+theorem fn_experimentalR (ver : Int) (V : List ValueInfoP) (hV : V.all wfVI = true) (f : FunctionP)
     (hwf : wfFunction ver f = true) (hvi : f.valueInfo = []) (x : IRFunction) (hx : FnShape ver f x) :
     ∃ x', applyExperimentalFn V x = .ok x' ∧
       serFunction (some ver) false x' = .ok (normFunction false f) ∧
-      serExperimental x' = experimentalVIs V f := by
+      ∀ R, serExperimentalR R x' = experimentalVIsR R V f := by
   obtain ⟨xs, gouts, as, rfl, hout, hser⟩ := hx
   simp only [wfFunction, Bool.and_eq_true] at hwf
   obtain ⟨⟨⟨⟨⟨⟨⟨⟨⟨⟨⟨⟨h1, h2⟩, _⟩, _⟩, _⟩, _⟩, _⟩, _⟩, _⟩, _⟩, _⟩, _⟩, _⟩ := hwf
@@ -757,10 +778,11 @@ theorem fn_experimental (ver : Int) (V : List ValueInfoP) (hV : V.all wfVI = tru
       hser _ hN', ?_⟩
     · simp only [applyExperimentalFn, fnIR, hov, if_true, htbl, hspec, bind, Except.bind]
     · -- what the serializer writes into the main graph
+      intro R
       have hF : ∀ n, (expUpd (experimentalFor V f.domain f.name) (IRValue.blank n)).name = n := by
         intro n; simp [IRValue.blank]
       have hovE : f.overload.isEmpty = true := by simp [hov]
-      simp only [serExperimental, experimentalVIs, fnIR, hovE, Bool.not_true, Bool.false_eq_true,
+      simp only [serExperimentalR, experimentalVIsR, fnIR, hovE, Bool.not_true, Bool.false_eq_true,
         if_false, IRGraph.table, IRGraph.inputs, IRGraph.nodes]
       rw [flatMap_range_getD _ _ _ (by simp), hout,
         flatMap_outs_getD _ hF f.inputs (nodeOutNames f.nodes) hnd _ _ hos]
@@ -771,16 +793,17 @@ theorem fn_experimental (ver : Int) (V : List ValueInfoP) (hV : V.all wfVI = tru
         exact List.take_left' (by simp)
       rw [htake, List.flatMap_map, List.filterMap_append]
       have hfm : ∀ l : List String, (∀ n ∈ l, n ≠ "") →
-          l.flatMap (fun n => expEmit f.domain f.name
+          l.flatMap (fun n => expEmitR R f.domain f.name
             (expUpd (experimentalFor V f.domain f.name) (IRValue.blank n)))
-          = l.filterMap (expEntry V f) := by
+          = l.filterMap (fun vn => if R.contains (experimentalName f.domain f.name vn) then none
+              else expEntry V f vn) := by
         intro l hl
         induction l with
         | nil => rfl
         | cons n l ih =>
-          rw [List.flatMap_cons, exp_value V hV f n (hl n (by simp)),
+          rw [List.flatMap_cons, exp_valueR R V hV f n (hl n (by simp)),
             ih (fun k hk => hl k (List.mem_cons_of_mem _ hk)), List.filterMap_cons]
-          cases expEntry V f n <;> rfl
+          cases (if R.contains (experimentalName f.domain f.name n) then none else expEntry V f n) <;> rfl
       have hf2 : (f.nodes.flatMap NodeP.outputs).filter (· ≠ "") = nodeOutNames f.nodes := rfl
       rw [hf2, hfm f.inputs (fun n hn => hne n (List.mem_append_left _ hn)),
         hfm (nodeOutNames f.nodes) (fun n hn => hne n (List.mem_append_right _ hn))]
@@ -792,7 +815,33 @@ theorem fn_experimental (ver : Int) (V : List ValueInfoP) (hV : V.all wfVI = tru
           = f.inputs ++ nodeOutNames f.nodes := by
         simp [tableNames, List.map_map, Function.comp_def]
       exact hser _ hN0
-    · simp [serExperimental, experimentalVIs, fnIR, hovE]
+    · intro R
+      simp [serExperimentalR, experimentalVIsR, fnIR, hovE]
+
+theorem fn_experimental (ver : Int) (V : List ValueInfoP) (hV : V.all wfVI = true) (f : FunctionP)
+    (hwf : wfFunction ver f = true) (hvi : f.valueInfo = []) (x : IRFunction) (hx : FnShape ver f x) :
+    ∃ x', applyExperimentalFn V x = .ok x' ∧
+      serFunction (some ver) false x' = .ok (normFunction false f) ∧
+      serExperimental x' = experimentalVIs V f := by
+  obtain ⟨x', a1, a2, a3⟩ := fn_experimentalR ver V hV f hwf hvi x hx
+  exact ⟨x', a1, a2, by rw [← serExperimentalR_nil, a3 [], experimentalVIsR_nil]⟩
+
+theorem fns_experimentalR (ver : Int) (V : List ValueInfoP) (hV : V.all wfVI = true) :
+    ∀ (fs : List FunctionP) (xs : List IRFunction), fs.all (wfFunction ver) = true →
+      (∀ f ∈ fs, f.valueInfo = []) → Pointwise (FnShape ver) fs xs →
+      ∃ xs', applyExperimentalAll V xs = .ok xs' ∧
+        (ver < 10 → serFunctions ver xs' = .ok (fs.map (normFunction false))) ∧
+        ∀ R, xs'.flatMap (serExperimentalR R) = fs.flatMap (experimentalVIsR R V)
+  | [], _, _, _, .nil => ⟨[], rfl, fun _ => rfl, fun _ => rfl⟩
+  | f :: fs, _, hwf, hvi, .cons hx hxs => by
+    simp only [List.all_cons, Bool.and_eq_true] at hwf
+    obtain ⟨x', a1, a2, a3⟩ := fn_experimentalR ver V hV f hwf.1 (hvi f (by simp)) _ hx
+    obtain ⟨xs', b1, b2, b3⟩ := fns_experimentalR ver V hV fs _ hwf.2
+      (fun g hg => hvi g (List.mem_cons_of_mem _ hg)) hxs
+    refine ⟨x' :: xs', by simp [applyExperimentalAll, a1, b1, bind, Except.bind], ?_, fun R => by simp [a3 R, b3 R]⟩
+    intro hlt
+    have hd : decide (ver ≥ 10) = false := by simp; omega
+    simp [serFunctions, hd, a2, b2 hlt, bind, Except.bind]
 
 theorem fns_experimental (ver : Int) (V : List ValueInfoP) (hV : V.all wfVI = true) :
     ∀ (fs : List FunctionP) (xs : List IRFunction), fs.all (wfFunction ver) = true →
